@@ -36,7 +36,7 @@ T2 = "_ipp._tcp.local."
 def floors(tier):
     q = tier == "quick"
     return {"c17.goodbyes": 1500 if q else 150000, "c17.quiet": 2500 if q else 300000, "c17.lookups": 1000 if q else 100000, "c17.second_close": 2500 if q else 300000,
-            "c17.withdrawn": 2500 if q else 300000, "c17.threads": 4 if q else 16, "c17.threads.goodbyes": 1 if q else 4, "c17.threads.staggered": 3 if q else 12}
+            "c17.withdrawn": 2500 if q else 300000, "c17.threads": 4 if q else 16, "c17.threads.goodbyes": 1 if q else 4, "c17.threads.staggered": 3 if q else 12, "c17.threads.shared_loop": 2 if q else 4}
 
 
 def plan(tier, seed):
@@ -163,7 +163,12 @@ def run_scenario(res: Result, seed: int) -> None:
             if acts["browser_direct"]:
                 pending.append(asyncio.ensure_future(at(off, lambda: AsyncServiceBrowser(zc, T2, listener=BL("direct"), delay=1000))))
             if acts["browser_api"]:
-                pending.append(asyncio.ensure_future(at(off + 5.0, lambda: azc.async_add_service_listener(T2, BL("api")))))
+                api_listener = BL("api")
+                pending.append(asyncio.ensure_future(at(off + 5.0, lambda: azc.async_add_service_listener(T2, api_listener))))
+                if rng.random() < 0.5:
+                    # the same listener object handed in again for another type (applications that reuse one listener): the
+                    # first browser must not be left behind
+                    pending.append(asyncio.ensure_future(at(off + 3.0, lambda: azc.async_add_service_listener("_osc._udp.local.", api_listener))))
             if acts["lookup"]:
                 timeout = rng.choice([200, 1000, 3000])
 
@@ -451,8 +456,11 @@ def run_threads(res: Result, seed: int, variant: Optional[int] = None) -> None:
                 return
 
         if busy:
-            # the browser thread is inside a slow callback while close() runs
-            zc.loop.call_soon_threadsafe(net.inject_now, host, R.build_response([(("PTR", T2, ("slow." + T2,)), 4500, False)], id_=2), ("10.0.0.9", 5353))
+            # the browser thread is inside a slow callback while close() runs; in one variant six slow callbacks (4.2 s of work)
+            # are queued: close() has to wait for all of them, however long that takes
+            n_slow = 6 if variant % 8 == 4 else 1
+            for k in range(n_slow):
+                zc.loop.call_soon_threadsafe(net.inject_now, host, R.build_response([(("PTR", T2, ("slow.%d.%s" % (k, T2),)), 4500, False)], id_=2 + k), ("10.0.0.9", 5353))
             time.sleep(0.05)
 
         def do_close() -> None:
@@ -584,6 +592,60 @@ def run_threads_staggered(res: Result, seed: int) -> None:
         viol("c17.threads", "exception", "exception in the staggered thread run: %r\n%s" % (e, tb()), exc_type=type(e).__name__)
 
 
+def run_threads_shared_loop(res: Result, seed: int) -> None:
+    """close() from a non-loop thread of an instance that was created inside the application's running event loop (it shares
+    that loop, it has no loop thread of its own): one or two registered services must be withdrawn with three goodbyes before
+    close() returns, and nothing follows."""
+    from ..threadrun import SharedLoopInstance
+    rng = random.Random(seed)
+    res.evaluations += 1
+    desc: Dict[str, Any] = {"threads_shared_loop": True}
+
+    def viol(monitor: str, kind: str, detail: str, **sig: Any) -> None:
+        res.violation(monitor, kind, detail, dict(sig, family="threads_shared_loop"), {"seed": seed, "threads_shared_loop": True, "scenario": desc})
+
+    try:
+        with SharedLoopInstance() as bi:
+            zc = bi.zc
+            svcs = []
+            for i in range(rng.choice([1, 2])):
+                s = Svc(T1, "shared%d.%s" % (i, T1), "shared-h%d.local." % i, 80 + i, b"", [bytes([10, 0, 0, 20 + i])], [], 120, 4500)
+                zc.register_service(R.make_info(s), cooperating_responders=True)
+                svcs.append(s)
+            time.sleep(rng.choice([0.0, 0.05, 0.3]))
+            C0 = bi.now_ms()
+            closer = threading.Thread(target=zc.close, daemon=True)
+            closer.start()
+            closer.join(30)
+            if closer.is_alive():
+                res.inconclusive.append("shared-loop thread run: close() did not return within 30 s (watchdog)")
+                return
+            bi.closed = True
+            C = bi.now_ms()
+            mark = len(bi.net.trace)
+            time.sleep(0.8)
+            res.mon("c17.threads.shared_loop")
+            for s in svcs:
+                byes = 0
+                for e in bi.net.trace[:mark]:
+                    m, _ = wire.try_parse(e["data"], strict=False)
+                    if m and m.is_response and e["t"] >= C0 - 1.0 and any(r.ttl == 0 and R.ident_of_wire(r) == s.ptr() for r in m.answers):
+                        byes += 1
+                if byes != 3:
+                    viol("c17.threads", "goodbye_count_at_close", "close() from a worker thread of an instance sharing the application's loop: %d goodbye datagram(s) for %s "
+                         "before it returned after %.0f ms (expected 3)" % (byes, s.name, C - C0), count=byes)
+                    break
+            withdrawn_monitor(res, bi.net.trace[:mark], C0, C, viol)
+            if len(bi.net.trace) != mark:
+                viol("c17.threads", "transmitted_after_close", "datagram sent %.0f ms after close() returned (shared loop)" % (bi.net.trace[mark]["t"] - C))
+            bad = [e for e in bi.net.escapes if "was destroyed but it is pending" not in str(e.get("message"))]
+            if bad:
+                viol("c17.threads", "exception_in_loop", "loop exception handler got %r" % (bad[0],))
+            res.cls("threads_shared_loop", "services=%d" % len(svcs))
+    except Exception as e:
+        viol("c17.threads", "exception", "exception in the shared-loop thread run: %r\n%s" % (e, tb()), exc_type=type(e).__name__)
+
+
 def run_shard(spec):
     res = Result()
     rng = rng_for("c17", spec["seed"], spec["shard"])
@@ -592,6 +654,8 @@ def run_shard(spec):
     for j in range(spec.get("threads", 0)):
         run_threads(res, rng.randrange(1 << 30), variant=spec["shard"] * 2 + j)
         run_threads_staggered(res, rng.randrange(1 << 30))
+        if j == 0:
+            run_threads_shared_loop(res, rng.randrange(1 << 30))
     return res
 
 
@@ -637,6 +701,9 @@ def replay(blob):
     res = Result()
     if blob.get("threads_staggered"):
         run_threads_staggered(res, blob["seed"])
+        return res
+    if blob.get("threads_shared_loop"):
+        run_threads_shared_loop(res, blob["seed"])
         return res
     if blob.get("witness"):
         return witnesses({})
